@@ -463,7 +463,7 @@ func genRPC(c *Chooser, o ScenOpts) *RPCPlan {
 		bp.CloseBody = Pick(c, "", "", "after-read", "at-return", "twice")
 		rp.EmptyWrites = c.Prob(0.2)
 		rp.FlushEvery = Pick(c, 0, 1, 2, 3)
-		cp.RW = Pick(c, "", "", "flusherr", "unwrap")
+		cp.RW = Pick(c, "", "", "flusherr", "unwrap", "buffering")
 	}
 	return &RPCPlan{Client: cp, Backend: bp}
 }
